@@ -18,6 +18,7 @@ PLUS == 43
 \* Smallest element of a non-empty set of naturals.
 MinOf(S) == CHOOSE x \in S : \A y \in S : x <= y
 MaxOf(S) == CHOOSE x \in S : \A y \in S : x >= y
+Min2(a, b) == IF a <= b THEN a ELSE b
 
 \* a..b inclusive, 1-based; empty when b < a.
 Slice(s, a, b) == IF b < a THEN <<>> ELSE SubSeq(s, a, b)
